@@ -126,8 +126,15 @@ TYPES = {
     "Literal[1, 2] | float": ("typing.Union[typing.Literal[1, 2], float]", ["1", "2.5"], ["3", "1", "2", "2.5", "'1'"]),
     "Wide | Narrow": ("typing.Union[Wide, Narrow]", ["Wide(1, 2)", "Narrow(1)"], ["{'x': 1}", "{'x': 1, 'y': 2}", "{'x': '3', 'y': '4'}"]),
     "tuple[int, int, int] | tuple[int, int]": ("typing.Union[tuple[int, int, int], tuple[int, int]]", ["(1, 2, 3)", "(1, 2)"], ["[1, 2]", "[1, 2, 3]", "['4', '5', '6']"]),
-    "Literal[1, 2]": ("typing.Literal[1, 2]", ["1", "2"], ["'1'", "1", "2", "b'2'"]),
-    "Literal[2, 1]": ("typing.Literal[2, 1]", ["1", "2"], ["'1'", "1", "2", "b'2'"]),
+    "Literal[1, 2]": ("typing.Literal[1, 2]", ["1", "2", "True", "1.0"], ["'1'", "1", "2", "b'2'", "True", "1.0", "2.0"]),
+    "Literal[2, 1]": ("typing.Literal[2, 1]", ["1", "2", "True", "2.0"], ["'1'", "1", "2", "b'2'", "True", "1.0"]),
+    # members and inputs that compare and hash equal but are of different classes (1 / 1.0 / True, 0 / 0.0 / False):
+    # membership is class-exact, so each of them has its own answer whatever was asked before
+    "Literal[1, 'a']": ("typing.Literal[1, 'a']", ["1", "'a'", "True", "1.0"], ["1", "True", "1.0", "'a'", "'1'", "b'1'"]),
+    "Literal[True, 'a']": ("typing.Literal[True, 'a']", ["True", "'a'", "1", "1.0"], ["True", "1", "1.0", "'a'", "'true'"]),
+    "Literal[0, 'b']": ("typing.Literal[0, 'b']", ["0", "'b'", "False", "0.0"], ["False", "0", "0.0", "'b'", "'0'"]),
+    "Literal[True]": ("typing.Literal[True]", ["True", "1"], ["True", "1", "1.0", "'true'"]),
+    "Literal[1]": ("typing.Literal[1]", ["1", "True"], ["1", "True", "1.0", "'1'"]),
     "Optional[list[int]]": ("typing.Optional[list[int]]", ["None", "[1]"], ["None", "'[1]'", "[1]"]),
     "list[int] | None": ("list[int] | None", ["None", "[1]"], ["None", "'[1]'", "[1]"]),
     "DC": ("DC", ["DC(1, ['x'])", "DC(2)"], ["{'a': 1, 'b': ['x']}", "'{\"a\": 1, \"b\": [\"x\"]}'", "{'a': '2'}", "[('a', 3)]"]),
@@ -159,7 +166,7 @@ TYPES = {
 PARTNERS = [
     {"Union[int, str]", "Union[str, int]"}, {"int | None | str", "str | None | int"}, {"Literal[1, 2]", "Literal[2, 1]"},
     {"Optional[list[int]]", "list[int] | None"}, {"list[int]", "AL"}, {"dict[str, list[int]]", "SAL"}, {"'Item'@A", "'Item'@B"},
-    {"dict[str, int]", "NTy"},
+    {"dict[str, int]", "NTy"}, {"Literal[1, 'a']", "Literal[True, 'a']"}, {"Literal[True]", "Literal[1]"},
 ]
 
 _POOL = None
